@@ -46,7 +46,8 @@ def run(chk):
              ("hist-sim", dict(depth=60, MaxIdle=1, H=3, sim=6, simulate={"num": 6 if quick else 40, "depth": 61}))]
     for name, kw in plans:
         r, c = tc.generate(chk, name, **kw)
-        for kind in (("sort",) if quick else ("sort", "batchsort", "visual")):
+        # (history length 3 with idle limit 1 in the simulated plan: the two options are different things in every tracker)
+        for kind in ((("sort", "batchsort") if name == "hist-sim" else ("sort",)) if quick else ("sort", "batchsort", "visual")):
             tc.replay(chk, name, r, c, kind, 2, "C13", "nt_C13")
     # free world (R2): random look-alike objects with long lives; TLC re-derives the admissible galleries of every call from
     # the logged ones (spec/tracker/VisualTrace.tla: GalleryAllowed, reported count = stored count, nothing touches a
